@@ -14,8 +14,9 @@ def run(ctx):
                               "c10_pipeline_parse_explicit", "c10_single_parse_paths", "c10_disagreeing_parsers_refuted",
                               "c10_weak_is_client_error_every_path", "c10_weak_is_client_error_one_configuration", "c10_pipeline_every_configuration", "c10_deny_before_strength_refuted",
                               "c10_pem_walk_total", "c10_pem_walk_sound", "c10_pem_skip_unguarded_refuted", "c10_role_parameter",
-                              "c10_claim_access_total", "c10_claim_access_sound", "c10_unguarded_index_refuted", "c10_header_assertion"])],
-        harness=("TestVerif_C10", ["kmd/common.go", "kmd/creds.go", "kmd/consts.go", "kmd/c10.go", "kmd/c11.go", "kmd/tokens.go", "kmd/c04.go", "kmd/c04peer.go", "kmd/c10_tokens.go", "kmd/c10_config.go"]),
+                              "c10_claim_access_total", "c10_claim_access_sound", "c10_unguarded_index_refuted", "c10_header_assertion",
+                              "c10_upload_refused_or_admissible", "c10_framed_upload_refused_or_admissible", "c10_framed_upload_total", "c10_unguarded_transcoder_refuted"])],
+        harness=("TestVerif_C10", ["kmd/common.go", "kmd/creds.go", "kmd/consts.go", "kmd/c10.go", "kmd/c11.go", "kmd/tokens.go", "kmd/c04.go", "kmd/c04peer.go", "kmd/c10_tokens.go", "kmd/c10_config.go", "kmd/c10_framing.go"]),
         cases=("CasesC10.v", [("c10_pred_mismatches", "ValidatePublicKeyStrength = model validate on every RSA size 1..4200, curves, Ed25519, others"),
                               ("c10_pipeline_mismatches", "status class of the six issuing paths = model pipeline on the key corpus"),
                               ("c10_file_mismatches", "SSH key files of the authorized_keys grammar (pairs of keys): status class = model pipeline2 on the key the real validator approved", "CasesC10F.idx"),
@@ -23,9 +24,11 @@ def run(ctx):
                               ("c10_cfg_mismatches", "key deny list {one foreign fingerprint, several + malformed entries, fingerprints of strong corpus keys} x weak / unknown / unparsable key corpus (+ strong controls) x the six issuing paths: status class = model pipeline_cfg (look-up after the strength check; per path observed whether it consults the list)", "CasesC10G.idx"),
                               ("c10_pem_mismatches", "PEM structure (first block of another type, several blocks, bytes after the last END line, headers, degenerate texts) at the cloud-role and X.509 paths: status class / panic = model pem_pipeline on the block list the real pem.Decode delivers", "CasesC10P.idx"),
                               ("c10_param_mismatches", "pubkey form parameter of the role / refresh paths (encodings: padding, alphabets, white space, repeated values, DER with trailing / concatenated / truncated content): status class = model param_pipeline on what base64 and the DER parser deliver for each value", "CasesC10R.idx"),
-                              ("c10_claim_mismatches", "getAuthInfoFromAuthJWT on well-signed tokens with dropped / type-confused claims: accepted (user, level, expiry, issued-at) or refused = model get_auth_info on the same payload", "CasesC10J.idx")], "CasesC10.idx"),
+                              ("c10_claim_mismatches", "getAuthInfoFromAuthJWT on well-signed tokens with dropped / type-confused claims: accepted (user, level, expiry, issued-at) or refused = model get_auth_info on the same payload", "CasesC10J.idx"),
+                              ("c10_framing_mismatches", "byte-level framing of every key upload (byte order marks, NULs, gzip magic in front; stray bytes behind; odd / even cuts; UTF-16 transcodings with and without mark) x the six issuing paths: status class / panic = model upload pipeline (normalize with the normalisations observed for the path, then pipeline_of on what the real parser makes of the normalised text)", "CasesC10X.idx")], "CasesC10.idx"),
         model_oracles=[("c10_cfg_violating", lambda line: "C10:model-oracle:weak-not-client-error:%s:deny-list-configured" % _path(line), _WHAT, "CasesC10G.idx"),
                        ("c10_param_violating", lambda line: "C10:model-oracle:malformed-parameter-not-client-error:%s" % _path(line), _WHAT, "CasesC10R.idx"),
+                       ("c10_framing_violating", lambda line: "C10:model-oracle:framed-upload-not-client-error:%s" % _path(line), "the observed answer violates the property predicate as evaluated in Coq: a framed key upload that is not an admissible key after normalisation was answered with something other than a client error (a certificate, a 5xx, a panic)", "CasesC10X.idx"),
                        ("c10_pem_violating", lambda line: "C10:model-oracle:malformed-pem-not-client-error:%s" % _path(line), _WHAT, "CasesC10P.idx")],
         trusted=["key parsers (x509.ParsePKIXPublicKey, ssh.ParseAuthorizedKey, pem) run in front of the model; the model starts at the parsed key description (algorithm, modulus bits, exponent, curve)",
                  "fake STS endpoint for the cloud-role path (harness verifFakeSTS)"],
